@@ -11,7 +11,7 @@ From Coq Require Import List Bool.
 From DV Require Import Base.QcInst Model.TransformState Model.TransformStateRun Model.TransformStateEx
   Gen.TState Model.TransformCfg
   Proofs.C09Fresh Proofs.C09Replace Proofs.C09Regrid Proofs.C09Refuted Proofs.C09Skeleton
-  Proofs.C09Wf Proofs.C09Seq Proofs.C09SeqDirect Proofs.C09History.
+  Model.ExpShare Proofs.C09Wf Proofs.C09Seq Proofs.C09SeqDirect Proofs.C09History Proofs.C09ExpShare.
 Import ListNotations.
 
 (* 0. the state-affecting statements of the anchored methods are the ones the model was written for *)
@@ -206,6 +206,17 @@ Proof.
            spline_regrid_history p0 emptyP zeroP fillP regrid callP fits geq same_dom spline_ok ffd_sub gen_cfg gen_cfg_all).
 Qed.
 Print Assumptions C09_spline_regrid_preserves_world_after_any_history.
+
+(* 11. A velocity-field transform exponentiates with the align_corners flag of its OWN grid after any
+       history of constructions, shallow copies, grid changes (in place or through the functional
+       t.grid(g)) and inversions: grid_ installs a private ExpFlow (read from the source: gen_private_exp),
+       so no other transform sharing the module is affected.  With the shared write of the code before
+       5d5a4a7 the receiver of t.grid(g_other_flag) is left inconsistent (second conjunct). *)
+Theorem C09_exp_flag_follows_own_grid :
+  gen_private_exp = true /\ (forall h : list xop, xconsistent (xrun gen_private_exp h)) /\
+  xconsistentb (xrun false [XNew false; XGridCopy 0 true]) = false.
+Proof. exact (conj gen_private_exp_true (conj exp_flag_consistent_gen (proj1 shared_module_breaks_consistency))). Qed.
+Print Assumptions C09_exp_flag_follows_own_grid.
 
 (* non-vacuity: the hypotheses of 1, 2 and 4 are met by concrete reachable states of the executable
    instance, and the conclusions are observed there (including the two repaired cases: a B-spline model
